@@ -103,6 +103,12 @@ def main(tier, replay=None):
     camp.run(mapgen.header("Int", "Int", list(range(-40, 200, 10)), [7, 8, 9]),
              [mapgen.random_history(rng, "Tree", 24, 3, rng.choice([60, 200]) if quick else rng.choice([200, 1000]))
               for _ in range(nexec // 2)], "random/Int")
+    # key magnitudes: differences that do not fit in 32 (or 64) bits, multiples of 2^32 apart, the ends of the int64 range
+    BIG = sorted({-2**63, -2**63 + 1, -2**62, -3 * 10**9, -2**32 - 7, -2**32, -2**31 - 1, -2**31, -7, 0, 7, 2**31 - 1, 2**31, 2**32, 2**32 + 7,
+                  3 * 10**9, 1700000000123, 1700000000123 + 2**33, 2**40, 2**62, 2**63 - 2, 2**63 - 1, 7 - 2**32, 7 + 2**33})
+    camp.run(mapgen.header("Int", "Int", BIG, [7, 8, 9]),
+             [mapgen.random_history(rng, "Tree", len(BIG), 3, rng.choice([60, 200]) if quick else rng.choice([200, 1000]))
+              for _ in range(nexec // 2)] + [patterned(rng, len(BIG), kd) for kd in ("asc", "desc", "rand")], "random/Int-magnitudes")
     for kt, vt in (("Int", "Probe"), ("Probe", "Int"), ("Odd12", "Int"), ("Int", "Odd12")):            # key and value types of different sizes
         camp.run(mapgen.header(kt, vt, list(range(0, 16 * 55, 55)), [7, 8, 9]),
                  [mapgen.random_history(rng, "Tree", 16, 3, rng.choice([60, 200]) if quick else rng.choice([200, 1000]))
